@@ -21,6 +21,7 @@ inductive XErr
   | mismatched          -- MismatchedType
   | invalidInterface    -- InvalidCiscoInterface (as_set(result_type=None) on integers)
   | typeError           -- TypeError (as_set(result_type=<interface instance>))
+  | indexError          -- IndexError (obj[k] beyond the end)
 deriving Repr, DecidableEq
 
 /-- `result_type=` of the constructor -/
@@ -177,5 +178,36 @@ def stepX (s : St) : OpX → St × AnsX
       | .ok d => (⟨d, s.rev⟩, .ok)
       | .error e => (s, .err e))
   | .ins _ => (s, .err .notImplemented)
+
+/-! ### further readers: `str()`, `repr()`, `obj[k]`, `==` against a freshly parsed range, `obj.data`
+
+They are functions of the state alone (no new state is returned: reading cannot change it). -/
+
+inductive ReadOp
+  | str | repr | idx (k : Nat) | eqFresh | data
+deriving Repr, DecidableEq
+
+/-- `"[" + ", ".join(str(ii) for ii in self.data) + "]"` -/
+def strOf (d : List Nat) : Str := '[' :: join ", ".toList (d.map toDec) ++ [']']
+
+def tyName : CTy → Str
+  | .int => "<class 'int'>".toList
+  | .float => "<class 'float'>".toList
+  | .bad => "<class 'bool'>".toList
+
+/-- `repr(obj)`: the members and their type, or the constructor's `result_type` when empty -/
+def reprOf (rt : CTy) (d : List Nat) : Str :=
+  if d = [] then "<CiscoRange [] result_type: ".toList ++ tyName rt ++ ['>']
+  else "<CiscoRange ".toList ++ strOf d ++ " members: <class 'int'>>".toList
+
+/-- `fresh` is the data of `CiscoRange(text, result_type=…)` built again from the same text -/
+def readX (rt : CTy) (fresh : List Nat) (s : St) : ReadOp → AnsX
+  | .str => .old (.str (strOf s.data))
+  | .repr => .old (.str (reprOf rt s.data))
+  | .idx k => (match s.data[k]? with
+      | some v => .old (.nat v)
+      | none => .err .indexError)
+  | .eqFresh => .old (.bool (s.data == fresh))
+  | .data => .old (.nats s.data)
 
 end Ccp.RangeX
